@@ -1,9 +1,11 @@
 /- Driver ops for SlidingTilePuzzle.
-   Ops: sliding_tile_puzzle.{step, state, judge, instance, walk} -/
+   Ops: sliding_tile_puzzle.{step, state, judge, instance, walk, bounds, spec, run} -/
 import JumanjiModel.Bridge.Json
 import JumanjiModel.Env.SlidingTilePuzzle.Model
 import JumanjiModel.Env.SlidingTilePuzzle.Bounds
 import JumanjiModel.Bridge.PuzzleBounds
+import JumanjiModel.Bridge.Spec
+import JumanjiModel.Env.SlidingTilePuzzle.Episode
 open Lean Jb
 
 namespace Jb.SlidingTilePuzzle
@@ -46,6 +48,9 @@ def opStep : Op := fun j => do
   let (s', ts) := step cfg s a
   pure (jObj [("state", jState s'), ("ts", jTimeStep jObs ts), ("valid", jBool (legalInt cfg.n s a))])
 
+def jNValue (v : Sp.NValue) : Json := jList (fun (e : String × Sp.Arr) => jObj [("key", jStr e.1), ("value", SpecOps.jArr e.2)]) v
+def jNested (s : Sp.Nested) : Json := jList (fun (e : String × Sp.Leaf) => jObj [("key", jStr e.1), ("spec", SpecOps.jLeaf e.2)]) s
+
 def flatCount (g : Jx.Grid Int) (x : Int) : Nat := (Jx.Grid.flatten g).count x
 
 /-- same multiset of tiles -/
@@ -69,6 +74,11 @@ def opState : Op := fun j => do
   pure (jObj [("mask", jBools (validActions cfg.n s.empty)),
               ("legal", jBools ((List.range 4).map (fun a => decide (legal cfg.n s a)))),
               ("obs", jObs (observeL2 cfg.n s)),
+              -- wave 2: the timestep `reset` builds for this state (L1), the L1 observation as spec-level arrays, and whether
+              -- the model's `obsSpec cfg` accepts it
+              ("reset_ts", jTimeStep jObs (resetTimeStep cfg.n s)),
+              ("nvalue", jNValue (toNValue (observe cfg.n s))),
+              ("obs_in_spec", jBool ((obsSpec cfg).valid (toNValue (observe cfg.n s)))),
               ("consistent", jBool (decide (Inv cfg.n s.board) && isPermutationB cfg.n s.puzzle)),
               ("solved", jBool solved),
               ("objective", jRat obj)])
@@ -123,8 +133,30 @@ def opBounds : Op := fun j => do
   let cfg ← getCfg j
   pure (jBoundsTable (obsBounds cfg))
 
+/-- {cfg} → the specs of the model (`obsSpec`, `actionSpec`, reward and discount spec) in the `speclib.leaf_json` layout, and
+    `generate_value()` of the action spec -/
+def opSpec : Op := fun j => do
+  let cfg ← getCfg j
+  pure (jObj [("observation_spec", jNested (obsSpec cfg)), ("action_spec", SpecOps.jLeaf actionSpec),
+              ("reward_spec", SpecOps.jLeaf PzS.rewardSpec), ("discount_spec", SpecOps.jLeaf PzS.discountSpec),
+              ("action_spec_wf", jBool actionSpec.WF),
+              ("generate_value", SpecOps.jArr actionSpec.generate),
+              ("generate_value_legal", jBool (actionSpec.generate == actionArr 0))])
+
+/-- {cfg, state, actions} → the L1 episode `run cfg state actions` (every successor state and timestep, through LAST), the
+    index of the first LAST and the return (sum of the rewards up to and including the first LAST) -/
+def opRun : Op := fun j => do
+  let cfg ← getCfg j
+  let s ← getState (← field j "state")
+  let acts ← fInts j "actions"
+  let rs := run cfg s acts
+  let firstLast := (rs.map (fun r => r.2.stepType == Jm.StepType.last)).idxOf true
+  pure (jObj [("steps", jList (fun (r : State × Jm.TimeStep Obs) => jObj [("state", jState r.1), ("ts", jTimeStep jObs r.2)]) rs),
+              ("first_last", if firstLast < rs.length then jNat (firstLast + 1) else .null),
+              ("episode_return", jRat (returnOf (rs.take (firstLast + 1))))])
+
 def ops : List (String × Op) :=
-  [("sliding_tile_puzzle.step", opStep), ("sliding_tile_puzzle.state", opState),
+  [("sliding_tile_puzzle.spec", opSpec), ("sliding_tile_puzzle.run", opRun), ("sliding_tile_puzzle.step", opStep), ("sliding_tile_puzzle.state", opState),
    ("sliding_tile_puzzle.judge", opJudge), ("sliding_tile_puzzle.instance", opInstance),
    ("sliding_tile_puzzle.walk", opWalk),
    ("sliding_tile_puzzle.bounds", opBounds)]
